@@ -86,18 +86,18 @@ def tok_table():
     return t
 
 
-def run_impl(case, script=None):
-    """-> (("ok", object) | ("exc", class name, message), decisions)"""
+def run_impl(case, script=None, arg=None):
+    """-> (("ok", object) | ("exc", class name, message), decisions); `arg`: an existing implementation object to
+    use as previous layer / individual instead of building a fresh one from the plain data"""
     from queasars.minimum_eigensolvers.evqe.evolutionary_algorithm.individual import EVQEIndividual
     from queasars.minimum_eigensolvers.evqe.evolutionary_algorithm.population import EVQEPopulation
     from queasars.minimum_eigensolvers.evqe.quantum_circuit.circuit_layer import EVQECircuitLayer
 
     k = case["kind"]
     log = rnglog.RngLog(max_events=MAX_EVENTS)
-    arg = None
-    if k == "layer" and case["prev"] is not None:
+    if arg is None and k == "layer" and case["prev"] is not None:
         arg = evqe.impl_layer(case["prev"])
-    if k == "append":
+    if arg is None and k == "append":
         arg = evqe.impl_individual(case["ind"])
     try:
         with rnglog.patched(log, script=script):
@@ -204,32 +204,118 @@ def do_case(ctx, case, script=None):
     return g
 
 
+XPROC_CACHE: dict = {}
+XPROC_CODE = r"""
+import sys, json, pickle, base64
+spec = json.load(sys.stdin)
+sys.path[:] = [p for p in sys.path if "queasars" not in p.lower()]
+sys.path.insert(0, spec["repo"]); sys.path.insert(0, spec["harness"])
+import warnings; warnings.filterwarnings("ignore")
+import cloudpickle
+from vlib import evqe
+out = []
+for item in spec["items"]:
+    P = cloudpickle if item["pickler"] == "cloudpickle" else pickle
+    obj = evqe.impl_individual(item["plain"]) if item["what"] == "individual" else evqe.impl_layer(item["plain"])
+    out.append(base64.b64encode(P.dumps(obj)).decode())
+sys.stdout.write("XPROC-BEGIN" + json.dumps(out) + "XPROC-END")
+"""
+
+
+def xproc_key(case):
+    return json.dumps([case["prevs"], case["xproc"], case["via"], case["n"]], sort_keys=True)
+
+
+def xproc_items(case):
+    """what the other process builds for this case: for pickle, layers (individuals are not picklable with the
+    plain pickle module: mappingproxy); for cloudpickle and via=append, whole individuals (as dask ships them)"""
+    ind = lambda prev: {"n": case["n"], "layers": [prev], "values": [0.25] * (3 * n_param_gates(prev))}
+    whole = case["via"] == "append" and case["xproc"]["pickler"] == "cloudpickle"
+    return [dict(what="individual" if whole else "layer", plain=ind(p) if whole else p, pickler=case["xproc"]["pickler"]) for p in case["prevs"]]
+
+
+def xproc_load(cases):
+    """ONE subprocess with another PYTHONHASHSEED builds and pickles the objects of all given cases"""
+    import base64
+    import os
+    import pickle
+    import subprocess
+
+    by_seed = {}
+    for c in cases:
+        by_seed.setdefault(c["xproc"]["hashseed"], []).append(c)
+    for hs, cs in by_seed.items():
+        items, spans = [], []
+        for c in cs:
+            it = xproc_items(c)
+            spans.append((c, len(items), len(items) + len(it)))
+            items += it
+        env = dict(os.environ, PYTHONHASHSEED=str(hs), PYTHONWARNINGS="ignore")
+        p = subprocess.run(["/venv/bin/python", "-c", XPROC_CODE], input=json.dumps(dict(repo=str(core.REPO), harness=str(core.ROOT / "harness"), items=items)),
+                           capture_output=True, text=True, env=env, timeout=600)
+        if "XPROC-BEGIN" not in p.stdout:
+            raise RuntimeError("cross-process producer failed: " + (p.stderr or p.stdout)[-1500:])
+        blobs = json.loads(p.stdout.split("XPROC-BEGIN")[1].split("XPROC-END")[0])
+        objs = [pickle.loads(base64.b64decode(b)) for b in blobs]
+        for c, a, b in spans:
+            XPROC_CACHE[xproc_key(c)] = objs[a:b]
+
+
 def do_group_case(ctx, case):
-    """Previous layers with the same gate type on every qubit but differently wired controlled rotations; every
-    seed is used on each member consecutively, through random_layer or through add_random_layers.  The whole
-    sequence is one case (it replays in a fresh process); every call is checked like a single case."""
-    ctx.tally(f"group:{case['via']}:n={case['n']}")
+    """A sequence of calls in this one process on a list of previous layers: every seed is used on each member
+    consecutively, through random_layer or through add_random_layers, and every previous-layer / parent OBJECT is
+    built once and reused for all seeds.  Families: previous layers with the same gate type on every qubit but
+    differently wired controlled rotations ('wiring'); all previous layers with a controlled rotation ('reuse');
+    with case['xproc'] the objects come out of ANOTHER python process (different PYTHONHASHSEED) through pickle /
+    cloudpickle and must equal (and hash like) their locally built twins.  The whole sequence is one case (it
+    replays in a fresh process); every call is checked like a single case."""
+    from queasars.minimum_eigensolvers.evqe.evolutionary_algorithm.individual import EVQEIndividual
+
+    fam = case.get("family", "wiring") + (":xproc-" + case["xproc"]["pickler"] if case.get("xproc") else "")
+    ctx.tally(f"group:{fam}:{case['via']}:n={case['n']}")
     out = []
     before = len(ctx.violations)
+    plain_ind = lambda prev: {"n": case["n"], "layers": [prev], "values": [0.25] * (3 * n_param_gates(prev))}
+    try:
+        if case.get("xproc"):
+            if xproc_key(case) not in XPROC_CACHE:
+                xproc_load([case])
+            objs = list(XPROC_CACHE[xproc_key(case)])
+            for j, prev in enumerate(case["prevs"]):
+                twin = evqe.impl_layer(prev)
+                got = objs[j].layers[0] if hasattr(objs[j], "layers") else objs[j]
+                same = got == twin and twin == got and hash(got) == hash(twin) and all(a == b and hash(a) == hash(b) for a, b in zip(got.gates, twin.gates)) and all(g in got.gates for g in twin.gates)
+                if not same:
+                    ctx.violation("oracle", "unpickled-layer-not-equal", f"a layer built in another python process (PYTHONHASHSEED={case['xproc']['hashseed']}) and transferred by {case['xproc']['pickler']} "
+                                  f"does not equal / hash like the identical layer built here: {prev['gates']}", case)
+                if case["via"] == "append" and not hasattr(objs[j], "layers"):
+                    objs[j] = EVQEIndividual(n_qubits=case["n"], layers=(objs[j],), parameter_values=tuple(plain_ind(prev)["values"]))
+        else:
+            objs = [evqe.impl_layer(p) if case["via"] == "layer" else evqe.impl_individual(plain_ind(p)) for p in case["prevs"]]
+    except Exception as e:
+        ctx.violation("oracle", f"group-setup-{type(e).__name__}", f"building / transferring the previous layers raised {type(e).__name__}: {str(e)[:300]}", case)
+        return out
     for seed in case["seeds"]:
-        for prev in case["prevs"]:
+        for prev, obj in zip(case["prevs"], objs):
             if case["via"] == "layer":
                 sub = {"kind": "layer", "n": case["n"], "prev": prev, "seed": seed}
             else:
-                sub = {"kind": "append", "ind": {"n": case["n"], "layers": [prev], "values": [0.25] * (3 * n_param_gates(prev))}, "n_layers": case["n_layers"], "randomize": False, "seed": seed}
-            g = do_single_case(ctx, sub, None)
+                sub = {"kind": "append", "ind": plain_ind(prev), "n_layers": case["n_layers"], "randomize": False, "seed": seed}
+            g = do_single_case(ctx, sub, None, arg=obj)
             if g is not None:
                 out.append(g)
     for v in ctx.violations[before:]:  # the replay is the whole sequence, not the single call
-        v["what"] = f"in a sequence of calls with equal seeds on previous layers of equal gate-type pattern (via {case['via']}, {len(case['seeds'])} seeds x {len(case['prevs'])} previous layers, one process): " + v["what"] + f" [call: {json.dumps(v['case'], sort_keys=True)[:400]}]"
-        v["case"] = case
+        if v["case"] is not case:
+            v["what"] = (f"in a sequence of calls in one process ({fam}, via {case['via']}, {len(case['seeds'])} seeds x {len(case['prevs'])} previous layers, every previous-layer object reused for all seeds): "
+                         + v["what"] + f" [call: {json.dumps(v['case'], sort_keys=True)[:400]}]")
+            v["case"] = case
     return out
 
 
-def do_single_case(ctx, case, script=None):
+def do_single_case(ctx, case, script=None, arg=None):
     """Run one call: oracle verdicts go to ctx, the Gallina case literal is returned."""
     k = case["kind"]
-    res, decisions = run_impl(case, script)
+    res, decisions = run_impl(case, script, arg)
     toks = tok_table()
     if k in ("make_layer", "make_individual"):
         return do_constructor_case(ctx, case, res, toks)
@@ -409,6 +495,22 @@ def group_cases(rng, n, n_seeds):
     return out
 
 
+def reuse_cases(rng, n, n_seeds, xproc=None):
+    """all previous layers on n qubits that hold a controlled rotation, every object reused for n_seeds seeds"""
+    prevs = [l for l in all_valid_layers(n) if any(g[0] == "CR" for g in l["gates"])]
+    if n >= 4:
+        prevs = rng.sample(prevs, 10)
+    out = []
+    for via in ("layer", "append"):
+        c = {"kind": "group", "family": "reuse", "via": via, "n": n, "prevs": prevs, "seeds": [rng.randrange(2**31) for _ in range(n_seeds)]}
+        if via == "append":
+            c["n_layers"] = rng.choice([1, 2])
+        if xproc:
+            c["xproc"] = xproc
+        out.append(c)
+    return out
+
+
 def gen_layer_case(rng, max_n=12):
     n = rng.choice([1, 1, 2, 2, 2, 3, 3, 3, 4, 4, 5, 6, 7, 8, 10, max_n])
     r = rng.random()
@@ -495,7 +597,7 @@ def run(ctx):
     translate.check_link(ctx, "C20")  # regenerate Gallina from /repo's current source; link lemmas coq/link/C20Link.v
     ctx.rule = ("random_layer: n from 1..12 (weight on 1-3) x previous layer none / all identities / all rotations / random valid, seeds random; every (n<=2, previous layer) x 4 seeds; "
                 "random_individual n 1..12 x 1..6 layers; add_random_layers on random valid individuals x 1..4 appended layers; random_population 0..5 individuals; argument edge cases; "
-                "exhaustive decision paths of random_layer through a scripted generator (quick n<=3 with <=2 rejected draws per path, thorough n<=4 with <=3); groups of previous layers with equal gate-type pattern and different wiring (n=4, thorough also 5) x equal seeds on every member consecutively in one process, via random_layer and via add_random_layers; every seeded call is run twice with other calls of the same seed in between and must give the same object and the same RNG call sequence; distinct = distinct (arguments, seed or script); non-trivial = at least one random decision drawn")
+                "exhaustive decision paths of random_layer through a scripted generator (quick n<=3 with <=2 rejected draws per path, thorough n<=4 with <=3); groups of previous layers with equal gate-type pattern and different wiring (n=4, thorough also 5) x equal seeds on every member consecutively in one process, via random_layer and via add_random_layers; every previous-layer / parent object reused for many seeds (n=2..4, all previous layers with a controlled rotation); the same with objects built in ANOTHER python process (different PYTHONHASHSEED) and transferred by pickle / cloudpickle, which must equal and hash like their local twins; every seeded call is run twice with other calls of the same seed in between and must give the same object and the same RNG call sequence; distinct = distinct (arguments, seed or script); non-trivial = at least one random decision drawn")
     if not rnglog.selftest():
         ctx.violation("correspondence", "rnglog-selftest", "the logging Random does not reproduce random.Random on this interpreter (vlib/rnglog.py)")
     cases = []
@@ -518,6 +620,18 @@ def run(ctx):
     cases += list(exhaustive_paths(ctx, max_n=ctx.n(3, 4), max_rejects=ctx.n(2, 3)))
     for n in ((4,) if ctx.quick else (4, 5)):
         cases += group_cases(ctx.rng, n, ctx.n(12, 25) if n == 4 else 6)
+    for n in (2, 3, 4):
+        cases += reuse_cases(ctx.rng, n, ctx.n(8, 30))
+    xp = []
+    for n in (2, 3, 4):
+        for pickler in ("pickle", "cloudpickle"):
+            xp += reuse_cases(ctx.rng, n, ctx.n(6, 20), xproc={"hashseed": 4242 + ctx.seed % 1000, "pickler": pickler})
+    try:
+        xproc_load(xp)  # one subprocess for the whole batch
+    except Exception as e:
+        ctx.violation("oracle", f"group-setup-{type(e).__name__}", f"the cross-process producer failed: {str(e)[:400]}", xp[0])
+        xp = []
+    cases += xp
     ctx.exhaustive = False
     glits, kept = [], []
     for c in cases:
